@@ -496,6 +496,12 @@ func Main(spec Spec) {
 		os.Exit(doReplay(spec, *replay))
 	}
 	scs := spec.Build(*tier)
+	if os.Getenv("VERIF_NOCACHE") != "" {
+		// differential validation of the happens-before state cache (./run.sh selfcheck)
+		for _, s := range scs {
+			s.Cache = false
+		}
+	}
 	if *bound >= 0 {
 		for _, s := range scs {
 			s.Bound = *bound
